@@ -32,6 +32,22 @@ func genC05(t *rapid.T) C05Case {
 	lim := sqrtPrecLimit()
 	evenExp := func(e int64) int64 { return e - e%2 }
 	shape := rapid.IntRange(0, 11).Draw(t, "shape")
+	if h.Rare(t, "huge", 3000) {
+		// roots of tens of thousands of digits (a few per run): size-gated paths in the Newton iteration and the
+		// multiplications behind it
+		p := rapid.SampledFrom([]int{19456, 32768, 40000, 65536}).Draw(t, "hp") + rapid.IntRange(-20, 20).Draw(t, "hpoff")
+		rd := h.GenDigitsN(t, "hr", rapid.SampledFrom([]int{1, 7, p / 2, p, p + 1}).Draw(t, "hrn"))
+		r := model.MkFinite(false, rd, int64(rapid.IntRange(-50, 50).Draw(t, "hre")))
+		x := model.MulX(r, r).Val
+		if rapid.Bool().Draw(t, "hperturb") {
+			if y := model.AddX(x, model.MkFinite(rapid.Bool().Draw(t, "hdneg"), "1", x.Exp-int64(len(x.Digits))-int64(rapid.IntRange(0, 5).Draw(t, "hdoff")))).Val; y.Form == model.Finite && !y.Neg {
+				x = y
+			}
+		}
+		c.X = h.SpecOf(x, uint(len(x.Digits)), h.GenMode(t, "hxm"))
+		c.P = uint(p)
+		return c
+	}
 	switch {
 	case shape == 0:
 		switch rapid.IntRange(0, 2).Draw(t, "sp") {
@@ -190,7 +206,7 @@ func checkC05(c C05Case, o *h.Obs) *h.Fail {
 	return nil
 }
 
-const ruleC05 = "rapid-generated (x, receiver precision, receiver mode, x's own mode, aliasing): x constructed from its root (x = r^2 with r short, r of p..p+3 digits, or r carrying a tie / all-nines / just-above / just-below pattern at the precision; optionally perturbed by one unit far below), generic word-patterned x up to the precision bound, odd and even exponents over +-2^29, +-0 and +Inf, receiver precision 0, receiver == x, receivers that previously held negative / special / other finite values; exact squares carrying one stray digit far below, placed so that the operand's length is 19j-1..19j+2 digits. Oracle: big.Int.Sqrt of an even-exponent scaling + remainder sticky + reference Round; Prec() and Mode() after == before (precision 0 -> x's). Non-trivial = root inexact at the precision, or perfect square under a directed mode, or x.mode != z.mode. Bound: precision <= 2000 (quick) / 20000 (thorough)."
+const ruleC05 = "rapid-generated (x, receiver precision, receiver mode, x's own mode, aliasing): x constructed from its root (x = r^2 with r short, r of p..p+3 digits, or r carrying a tie / all-nines / just-above / just-below pattern at the precision; optionally perturbed by one unit far below), generic word-patterned x up to the precision bound, odd and even exponents over +-2^29, +-0 and +Inf, receiver precision 0, receiver == x, receivers that previously held negative / special / other finite values; exact squares carrying one stray digit far below, placed so that the operand's length is 19j-1..19j+2 digits. Oracle: big.Int.Sqrt of an even-exponent scaling + remainder sticky + reference Round; Prec() and Mode() after == before (precision 0 -> x's). Non-trivial = root inexact at the precision, or perfect square under a directed mode, or x.mode != z.mode. Bound: precision <= 2000 (quick) / 20000 (thorough), plus about one case in 3000 at 19456..65536 digits."
 
 var propC05 = &h.Prop[C05Case]{ID: "C05", Rule: ruleC05, Gen: genC05, Check: checkC05, Matchers: map[string]func(C05Case) bool{}}
 
